@@ -19,6 +19,7 @@ NOT_DECIDED = "the numerical balance, values computed inside energy-loss models 
 TECHNIQUE = ('energy-ledger pairing by CFG dominance/must-pass and reaching definitions; writer/caller ownership and per-step-action effect sets over the instantiation-level call graph')
 
 UNITS = [
+    "src/celeritas/phys/PhysicsParams.cc",
     "src/celeritas/global/alongstep/AlongStepGeneralLinearAction.cc",
     "src/celeritas/global/alongstep/AlongStepUniformMscAction.cc",
     "src/celeritas/global/alongstep/AlongStepRZMapFieldMscAction.cc",
@@ -400,6 +401,57 @@ def run(db, cx):
 
     # ------------------------------- rule 5: a track is ended only with its energy accounted
     kill_accounts_energy(db, cx, "C01.5-kill-accounts")
+    at_rest_flag(db, cx, "C01.5-at-rest-flag")
+
+
+def at_rest_flag(db, cx, rule):
+    """ElossApplier decides between "kill" and "force the at-rest interaction" for a stopped
+    particle by ProcessGroup::has_at_rest.  For a positron the at-rest interaction is the
+    annihilation that emits 2mc^2; if the flag is false the track is killed and that energy is
+    neither emitted nor deposited.  The flag is a property of the particle's processes: no write
+    of it in PhysicsParams::build_xs may be control-dependent on the run options."""
+    fs = db.get(C + "PhysicsParams::build_xs")
+    cx.require(fs, "anchor PhysicsParams::build_xs not found")
+    n = 0
+    for f in fs:
+        optp = [p_["n"] for p_ in f.r["params"] if "Options" in p_.get("cty", p_.get("ty", ""))]
+        cx.require(optp, "PhysicsParams::build_xs has no Options parameter")
+        brs = [b for b in f.branch_blocks(lambda c, _b: True) if None not in f.blocks[b]["succ"]]
+
+        def derives_from_options(names, pos, depth=4):
+            seen, frontier = set(), set(names)
+            for _ in range(depth):
+                if frontier & set(optp):
+                    return True
+                nxt = set()
+                for v in local_refs(frontier):
+                    if v in seen:
+                        continue
+                    seen.add(v)
+                    for (_b, _i, d) in f.reaching_defs(v, pos):
+                        nxt |= set(d.get("refs", []))
+                frontier = nxt
+                if not frontier:
+                    break
+            return bool(frontier & set(optp))
+        for (b, i, ev) in f.events("write"):
+            if not (path_leaf(ev.get("path")) or "").endswith("ProcessGroup::has_at_rest"):
+                continue
+            bad = []
+            for br in brs:
+                c = f.blocks[br]["cond"]
+                if any(f.guarded_by_edge((b, i), br, e_) for e_ in (0, 1)) and \
+                        derives_from_options(c.get("refs", []), (br, 0)):
+                    bad.append(c.get("t", "")[:60])
+            if derives_from_options(ev.get("refs", []), (b, i)):
+                bad.append("value: " + (ev.get("rhs") or "")[:40])
+            n += 1
+            cx.ob(rule, "has_at_rest %s %s @%s does not depend on the run options"
+                  % (ev.get("op"), (ev.get("rhs") or "")[:30], short(ev["loc"]).split(":", 1)[1]), not bad,
+                  "depends on: %s" % "; ".join(sorted(set(bad))) if bad else "", short(ev["loc"]),
+                  why="with the flag false a stopped positron is killed instead of annihilating: the "
+                      "2mc^2 of the destroyed positron is neither emitted nor deposited")
+    cx.floor("writes of ProcessGroup::has_at_rest", n, 2)
 
 
 def kill_accounts_energy(db, cx, rule):
